@@ -1513,8 +1513,8 @@ pub fn create_simple_plan(
             }
         }
 
-        // Only process files
-        if !path.is_file() {
+        // Only process regular files (lstat type: symlinks are never followed)
+        if !entry.file_type().is_some_and(|t| t.is_file()) {
             continue;
         }
 
